@@ -446,6 +446,10 @@ def walk(t: Term):
         yield from walk(t.value)
 
 
+def _field_key(rec: Term, name: str) -> str:
+    return f'@field:{rec!r}.{name}'
+
+
 def expand_ites(t: Term, limit: int = 64) -> List[Tuple[Tuple[Guard, ...], Term]]:
     """all alternatives of a term with Ite nodes anywhere inside constructor / tuple / call arguments"""
     tests: List[Term] = []
@@ -1001,6 +1005,9 @@ class Evaluator:
         bound = self.bind_call(fi, recv, args, kwargs, depth)
         if bound is None:
             return None
+        fields_env = {k: v for k, v in st.env.items() if k.startswith('@field:')}
+        if fields_env:
+            base_env = dict(base_env or {}, **fields_env)     # what was stored into local records is visible to the callee
         self._stack.append(fi.key)
         try:
             outs = self.run(fi, bound, depth + 1, base_env=base_env)
@@ -1025,6 +1032,14 @@ class Evaluator:
         # the first outcome's guards are dropped when it is the only one
         if len(outs) == 1:
             pass
+        fkeys = [k for o in outs if o.kind in ('return', 'fall') for k in (o.env or {}) if k.startswith('@field:')]
+        for k in dict.fromkeys(fkeys):
+            merged: Optional[Term] = None
+            for o in reversed([o for o in outs if o.kind in ('return', 'fall')]):
+                val = (o.env or {}).get(k, st.env.get(k, Opaque(f'unset:{k}')))
+                test = self._conj(o.guards)
+                merged = val if merged is None or test is None else mk_ite(test, val, merged)
+            st.env[k] = merged
         seen_e = set(map(repr, st.effects))
         for o in outs:
             for e in o.effects:
@@ -1050,6 +1065,53 @@ class Evaluator:
                 if cond not in st.asserts:
                     st.asserts = st.asserts + (cond,)
         return result
+
+    def _fork_record_call(self, e: ast.expr, st: _State, mod, fi, depth, outs, lineno) -> Optional[List[_State]]:
+        """`rec.update(x)` as a statement, rec a record built in this function (an accumulator): the paths of the method
+        go on one by one, each with its own conditions, stores and effects, instead of being merged into one"""
+        if not (isinstance(e, ast.Call) and isinstance(e.func, ast.Attribute) and not e.keywords and not any(isinstance(a, ast.Starred) for a in e.args)):
+            return None
+        if not (isinstance(e.func.value, ast.Name) or (isinstance(e.func.value, ast.Attribute) and isinstance(e.func.value.value, ast.Name))):
+            return None
+        probe = st.fork()
+        func = self.expr(e.func, probe, mod, fi, depth)
+        if not (isinstance(func, BoundMethod) and isinstance(func.recv, New)):
+            return None
+        m = self._fn_by_key.get(func.key)
+        if m is None or m.kind != 'method' or m.key in self._stack or not self.inline(m, depth):
+            return None
+        if any(isinstance(x, (ast.Return,)) and x.value is not None for x in ast.walk(m.node)) or any(isinstance(x, (ast.Yield, ast.YieldFrom, ast.While, ast.For)) for x in ast.walk(m.node)):
+            return None
+        args = tuple(self.expr(a, st, mod, fi, depth) for a in e.args)
+        bound = self.bind_call(m, func.recv, args, (), depth)
+        if bound is None:
+            return None
+        self._stack.append(m.key)
+        try:
+            couts = self.run(m, bound, depth + 1, base_env={k: v for k, v in st.env.items() if k.startswith('@field:')})
+        finally:
+            self._stack.pop()
+        if len(couts) < 2:
+            return None
+        res: List[_State] = []
+        call_t = Call(func, args, ())
+        for o in couts:
+            known = {t: pol for t, pol in norm_guards(st.guards)}
+            if any(known.get(t, pol) != pol for t, pol in norm_guards(o.guards)):
+                continue
+            if o.kind == 'raise':
+                outs.append(Outcome('raise', o.value, st.guards + o.guards, st.effects + o.effects, st.asserts + o.asserts, lineno, dict(st.env), st.trace))
+                continue
+            nst = st.fork()
+            nst.guards = nst.guards + o.guards
+            nst.effects = nst.effects + tuple(x for x in o.effects if x not in nst.effects)
+            nst.asserts = nst.asserts + tuple(a for a in o.asserts if a not in nst.asserts)
+            nst.trace = nst.trace + tuple(t for t in o.trace if t not in nst.trace) + (call_t,)
+            for k, v in (o.env or {}).items():
+                if k.startswith('@field:'):
+                    nst.env[k] = v
+            res.append(nst)
+        return res
 
     @staticmethod
     def _conj(guards: Tuple[Guard, ...]) -> Optional[Term]:
@@ -1101,6 +1163,9 @@ class Evaluator:
         if isinstance(s, ast.Expr):
             if isinstance(s.value, ast.Constant):
                 return [st]
+            forked = self._fork_record_call(s.value, st, mod, fi, depth, outs, s.lineno)
+            if forked is not None:
+                return forked
             v = self.expr(s.value, st, mod, fi, depth)
             st.effects = st.effects + (v,)
             return [st]
@@ -1238,6 +1303,9 @@ class Evaluator:
         elif isinstance(target, (ast.Attribute, ast.Subscript)):
             tt = self.expr(target, st, mod, fi, depth, store=True)
             st.effects = st.effects + (Store(tt, v),)
+            if isinstance(tt, Attr) and isinstance(tt.base, New):
+                # a field of a record built in this function is a local variable under another name
+                st.env[_field_key(tt.base, tt.name)] = v
             if self._loop_depth == 0 and isinstance(target, ast.Subscript) and isinstance(target.value, ast.Name) and not isinstance(target.slice, ast.Slice):
                 cur = st.env.get(target.value.id)
                 if isinstance(cur, DictT) and not any(isinstance(k, Opaque) for k, _ in cur.items):
@@ -1340,7 +1408,18 @@ class Evaluator:
                 cond_term = self.expr(s.test, body_st.fork(), mod, fi, depth)
             except AnalysisError:
                 cond_term = None
-        finals = self.block(s.body, [body_st], mod, fi, depth, inner)
+        steps0 = self.steps
+        finals = self.block(s.body, [body_st.fork()], mod, fi, depth, inner)
+        stored_fields = sorted({k for f in finals for k, v in f.env.items() if k.startswith('@field:') and st.env.get(k) is not v and st.env.get(k) != v})
+        if stored_fields:
+            # fields of a local record stored in the body: loop-carried like any assigned name; evaluate the body again
+            # with their value at the top of an iteration unknown
+            for k in stored_fields:
+                body_st.env[k] = Opaque(f'loopvar:{k}')
+            assigned = assigned + stored_fields
+            inner.clear()
+            self.steps = steps0
+            finals = self.block(s.body, [body_st], mod, fi, depth, inner)
         effs: List[Term] = []
         paths = []
         for f in finals:
@@ -1757,6 +1836,12 @@ class Evaluator:
         return Template(tuple(merged))
 
     def compare(self, op: str, a: Term, b: Term) -> Term:
+        if isinstance(b, Const) and b.value == 0 and type(b.value) is int and op in ('!=', '==', '>'):
+            fl = self._flag_of_bits(a)
+            if fl is not None:
+                # bits != 0 is the truth value of the flag
+                truth = Call(Ext('bool'), (fl,))
+                return Op('not', (truth,)) if op == '==' else truth
         if isinstance(a, Ite) and isinstance(b, (Const, EnumMember)) and op in ('is', 'is not', '==', '!='):
             return mk_ite(a.test, self.compare(op, a.a, b), self.compare(op, a.b, b), boolean=True)
 
@@ -1884,8 +1969,28 @@ class Evaluator:
             return out[0]
         return Op(op, tuple(out))
 
+    def _is_flag_term(self, t: Term) -> bool:
+        if isinstance(t, EnumMember):
+            ci = self.m.classes.get(t.cls)
+            return ci is not None and ci.is_flag
+        if isinstance(t, Op) and t.op in ('&', '|', '^') and len(t.args) == 2:
+            return self._is_flag_term(t.args[0]) and self._is_flag_term(t.args[1])
+        bt = self.type_of(t) if isinstance(t, (Sym, Attr, Call)) else None
+        return bt is not None and bt.is_flag
+
+    def _flag_of_bits(self, t: Term) -> Optional[Term]:
+        """F when t is F.value for a flag-valued F"""
+        t = t.value if isinstance(t, GlobalVal) else t
+        if isinstance(t, Attr) and t.name == 'value' and self._is_flag_term(t.base):
+            return t.base
+        return None
+
     def binop(self, op: str, a: Term, b: Term) -> Term:
         sa_, sb_ = (a.value if isinstance(a, GlobalVal) else a), (b.value if isinstance(b, GlobalVal) else b)
+        if op in ('&', '|', '^'):
+            fa_, fb_ = self._flag_of_bits(a), self._flag_of_bits(b)
+            if fa_ is not None and fb_ is not None:
+                return Attr(Op(op, (fa_, fb_)), 'value')     # integer arithmetic on the bits of two flags
         if op in ('-', '|', '&', '^') and isinstance(sa_, TupleT) and isinstance(sb_, TupleT) and sa_.kind == 'set' and sb_.kind == 'set' \
                 and all(isinstance(x, (Const, EnumMember)) for x in sa_.items + sb_.items):
             # algebra of literal sets
@@ -2000,6 +2105,8 @@ class Evaluator:
                         return r
                 if m is not None:
                     return BoundMethod(base, m.key, m.name)
+                if name == 'value' and ci.is_flag:
+                    return key      # the bits of a flag: kept symbolic, (x.value & F.M.value) is read as (x & F.M).value
                 if name == 'value':
                     return self.enum_value(base, depth)
                 if name == 'name':
@@ -2013,11 +2120,19 @@ class Evaluator:
                         return BoundMethod(Op('super', (st.env['self'],)), c.methods[name].key, name)
         if isinstance(base, Ext):
             return Ext(f'{base.name}.{name}')
+        if isinstance(base, New) and not store and _field_key(base, name) in st.env:
+            return st.env[_field_key(base, name)]      # stored to since the record was built
         if isinstance(base, New) and not store:
             v = base.get(name)
             if v is not None and not isinstance(v, Default):
                 return v
             if isinstance(v, Default):
+                ci = self.m.classes.get(base.cls)
+                f = ci.field(name) if ci is not None else None
+                fac = f.factory if f is not None and f.factory is not None else \
+                    (f.default.args[0] if f is not None and isinstance(f.default, ast.Call) and isinstance(f.default.func, ast.Name) and f.default.func.id == 'Factory' and len(f.default.args) == 1 else None)
+                if isinstance(fac, ast.Name) and fac.id in ('dict', 'list') and ci.resolve('__attrs_post_init__') is None:
+                    return DictT(()) if fac.id == 'dict' else TupleT((), 'list')      # a fresh empty container per instance
                 # a plain (immutable, constant) default of a field that the constructor call left out
                 ci = self.m.classes.get(base.cls)
                 f = ci.field(name) if ci is not None else None
